@@ -380,3 +380,111 @@ slice_fields!(c16_slice_proposition_field_alone, 3, PROPOSITION_IMMUTABLE, |bad:
 // @fns parser::kml::guard_update (first loop, sliced), parser::kml::guard_immutable_field
 // @bound the last name of ASSERTION_IMMUTABLE / EVIDENCE_IMMUTABLE / PROPOSITION_IMMUTABLE (every name of each table is decided on guard_immutable_field itself above; a symbolic table index here took 230-300+ s) on a target bound to that kind (refused) and to a Concept (accepted) - all concrete, the solver only folds constants here: a wiring check; the immutable name is the only assignment, the second assignment of one SET FIELDS, or in the second SET FIELDS action after a harmless one
 slice_fields!(c16_slice_assertion_field_second_action, 1, ASSERTION_IMMUTABLE, |bad: &str| vec![set_fields("x_note"), set_fields(bad)]);
+
+// ---- routing: every write block of every clause family reaches the engine-owned-field guard ----------
+// validate_clause is the tree validator an injected (pre-parsed) command goes through. With a symbolic
+// key it does not finish (BTreeSet of seen keys); with a CONCRETE engine-owned key the guard returns
+// before the set is touched, so each write position can be decided on its own: a wiring table. Which
+// names are engine-owned is decided for every string by the is_protected_field harnesses above. Added
+// after seeded change C16-9 (TRANSITION ACTIVITY's SET FIELDS lost its name checks).
+fn asg(key: &str) -> Assignments {
+    vec![(key.to_string(), MutationValue::Value(KipValue::Null))]
+}
+fn facet_set(key: &str) -> Vec<FacetAssignment> {
+    vec![FacetAssignment { facet: SymbolRef::Name(String::from("f")), values: asg(key) }]
+}
+#[allow(dead_code)]
+fn facet_unset(key: &str) -> Vec<FacetUnset> {
+    vec![FacetUnset { facet: SymbolRef::Name(String::from("f")), fields: vec![key.to_string()] }]
+}
+fn cc() -> ConceptCreate {
+    ConceptCreate { handle: "c".to_string(), r#type: None, client_key: None, name: None, set_fields: None, set_attributes: None, set_facets: Vec::new(), set_structural: None }
+}
+#[allow(dead_code)]
+fn cu() -> ConceptUpsert {
+    ConceptUpsert {
+        handle: "c".to_string(),
+        r#match: None,
+        expect_version: None,
+        set_fields: None,
+        set_attributes: None,
+        set_facets: Vec::new(),
+        unset_attributes: None,
+        unset_facets: Vec::new(),
+        set_structural: None,
+        unset_structural: None,
+    }
+}
+fn rc() -> RecordCreate {
+    RecordCreate { handle: "r".to_string(), client_key: None, set_fields: None, set_facets: Vec::new(), set_structural: None }
+}
+fn upd(action: UpdateAction) -> MutationClause {
+    MutationClause::Update(UpdateStatement { target: ElementRef::Handle(String::from("a")), expect_version: None, actions: vec![action], where_clauses: None, limit: None })
+}
+macro_rules! routed {
+    ($name:ident, $key:expr, $build:expr) => {
+        #[kani::proof]
+        #[kani::unwind(12)]
+        #[kani::stub(alloc::fmt::format, fmt_stub)]
+        fn $name() {
+            let build = $build;
+            let clause: MutationClause = build($key);
+            let r = validate_clause(&clause);
+            assert!(r.is_err(), "an injected clause that writes or unsets an engine-owned field in this block is refused by the tree validator");
+            std::mem::forget((r, clause));
+        }
+    };
+}
+// @check id=C16 tier=quick cap=300 role=validate_clause_routing harness=c16_routed_create_concept_fields,c16_routed_create_concept_attributes,c16_routed_create_concept_facet,c16_routed_create_evidence_fields,c16_routed_create_assertion_fields,c16_routed_create_activity_fields,c16_routed_create_evidence_facet,c16_routed_update_facet,c16_routed_update_unset_facet,c16_routed_transition_fields,c16_routed_set_retention
+// @fns parser::kml::validate_clause, parser::common::is_protected_field
+// @bound 11 write positions (CREATE CONCEPT fields / attributes / facet; CREATE EVIDENCE / ASSERTION / ACTIVITY fields, one facet; UPDATE set facet / unset facet; TRANSITION ACTIVITY fields; SET RETENTION). The other 8 positions (all five of UPSERT CONCEPT, UPDATE set fields / set attributes / unset attributes) did not finish in 900 s although equally concrete and are NOT covered, each carrying one concrete engine-owned name (the four names rotate over the positions): all concrete - a wiring table
+// @stubs alloc::fmt::format -> String::new()
+routed!(c16_routed_create_concept_fields, "_system", |k: &str| MutationClause::CreateConcept(ConceptCreate { set_fields: Some(asg(k)), ..cc() }));
+routed!(c16_routed_create_concept_attributes, "governance", |k: &str| MutationClause::CreateConcept(ConceptCreate { set_attributes: Some(asg(k)), ..cc() }));
+routed!(c16_routed_create_concept_facet, "space_id", |k: &str| MutationClause::CreateConcept(ConceptCreate { set_facets: facet_set(k), ..cc() }));
+routed!(c16_routed_create_evidence_fields, "_system", |k: &str| MutationClause::CreateEvidence(RecordCreate { set_fields: Some(asg(k)), ..rc() }));
+routed!(c16_routed_create_assertion_fields, "governance", |k: &str| MutationClause::CreateAssertion(RecordCreate { set_fields: Some(asg(k)), ..rc() }));
+routed!(c16_routed_create_activity_fields, "space_id", |k: &str| MutationClause::CreateActivity(RecordCreate { set_fields: Some(asg(k)), ..rc() }));
+routed!(c16_routed_create_evidence_facet, "space_seq", |k: &str| MutationClause::CreateEvidence(RecordCreate { set_facets: facet_set(k), ..rc() }));
+routed!(c16_routed_update_facet, "space_id", |k: &str| upd(UpdateAction::SetFacet(FacetAssignment { facet: SymbolRef::Name(String::from("f")), values: asg(k) })));
+routed!(c16_routed_update_unset_facet, "_system", |k: &str| upd(UpdateAction::UnsetFacet(FacetUnset { facet: SymbolRef::Name(String::from("f")), fields: vec![k.to_string()] })));
+routed!(c16_routed_transition_fields, "governance", |k: &str| MutationClause::TransitionActivity(TransitionActivity { target: ElementRef::Handle(String::from("a")), to: Scalar::Literal(KipValue::Null), set_fields: Some(asg(k)), set_structural: None, expect_state: None }));
+routed!(c16_routed_set_retention, "space_id", |k: &str| MutationClause::SetRetention(SetRetention { target: ElementRef::Handle(String::from("a")), values: asg(k), where_clauses: None, limit: None, expect_version: None }));
+
+// ---- a virtual BELIEF projection is never a selection pattern of a mutation or an export --------------
+// validate_exact_patterns on concrete one-clause / one-wrapper shapes (recursion over heap-held
+// wrapper nodes does not finish at larger shapes). Added after seeded change C16-7 (BELIEF SLOT dropped
+// from the refusing arm).
+fn w_belief() -> WhereClause {
+    WhereClause::Belief { variable: String::from("b"), target: crate::ast::BeliefTarget::Proposition(String::from("p")) }
+}
+fn w_slot() -> WhereClause {
+    WhereClause::BeliefSlot { variable: String::from("s"), subject: Term::Variable(String::from("x")), predicate: PredAtom::Literal(String::from("p")) }
+}
+fn w_plain() -> WhereClause {
+    WhereClause::Concept { variable: String::from("c"), matcher: ObjectMatcher::new() }
+}
+macro_rules! exact_shape {
+    ($name:ident, $clauses:expr, $refused:expr) => {
+        #[kani::proof]
+        #[kani::unwind(4)]
+        #[kani::stub(alloc::fmt::format, fmt_stub)]
+        fn $name() {
+            let clauses = $clauses;
+            let r = validate_exact_patterns(&clauses);
+            assert!(r.is_err() == $refused, "a selection block is refused iff it contains a BELIEF or BELIEF SLOT projection, at top level or inside NOT / OPTIONAL / UNION");
+            std::mem::forget((r, clauses));
+        }
+    };
+}
+// @check id=C16 tier=quick cap=300 role=belief_never_a_selection_pattern harness=c16_exact_belief,c16_exact_belief_slot,c16_exact_belief_slot_after_plain,c16_exact_belief_slot_in_not,c16_exact_belief_slot_in_optional,c16_exact_belief_in_union,c16_exact_plain_only
+// @fns parser::kml::validate_exact_patterns
+// @bound concrete selection blocks: [BELIEF], [BELIEF SLOT], [plain, BELIEF SLOT], NOT / OPTIONAL holding a BELIEF SLOT, UNION holding a BELIEF (refused); [plain] (accepted; OPTIONAL holding a plain clause - the accepting path through the recursion - did not finish in 300 s)
+// @stubs alloc::fmt::format -> String::new()
+exact_shape!(c16_exact_belief, [w_belief()], true);
+exact_shape!(c16_exact_belief_slot, [w_slot()], true);
+exact_shape!(c16_exact_belief_slot_after_plain, [w_plain(), w_slot()], true);
+exact_shape!(c16_exact_belief_slot_in_not, [WhereClause::Not(vec![w_slot()])], true);
+exact_shape!(c16_exact_belief_slot_in_optional, [WhereClause::Optional(vec![w_slot()])], true);
+exact_shape!(c16_exact_belief_in_union, [WhereClause::Union(vec![w_belief()])], true);
+exact_shape!(c16_exact_plain_only, [w_plain()], false);
